@@ -186,9 +186,30 @@ pub fn run(c: &FrCase) -> Result<Vec<String>, String> {
     std::thread::sleep(Duration::from_micros(c.delay_us as u64));
     *g.open.lock().unwrap() = true;
     g.cv.notify_all();
-    let _ = a.join();
-    for h in hs {
-        let _ = h.join();
+    // every flush() must return once the reporter is released: a caller that is still inside
+    // flush() 8 s later (the collector is idle by then) is blocked for good
+    let deadline = std::time::Instant::now() + Duration::from_secs(8);
+    let mut stuck = 0;
+    let mut all = vec![a];
+    all.extend(hs);
+    for h in all {
+        while !h.is_finished() && std::time::Instant::now() < deadline {
+            std::thread::sleep(Duration::from_millis(2));
+        }
+        if h.is_finished() {
+            let _ = h.join();
+        } else {
+            stuck += 1; // left behind: it may never return
+        }
+    }
+    if stuck > 0 {
+        results.lock().unwrap().push(format!(
+            "BLOCKED-FLUSH: {} of {} overlapping flush() calls had not returned 8 s after the reporter call they were waiting for had returned",
+            stuck,
+            nthreads + 1
+        ));
+        let r = results.lock().unwrap().clone();
+        return Ok(r);
     }
     drop(live_root);
     fastrace::flush();
